@@ -64,6 +64,9 @@ def _draw_spec(draw, name, m, rng):
         spec["weights"] = (rng.standard_normal(m) * 10.0 ** rng.uniform(-1, 1)).tolist()
     if name == "GradDrop" and draw(st.booleans()):
         spec["leak"] = rng.uniform(0, 1, size=m).tolist()
+    if (name in ("UPGrad", "DualProj") and "pref" in spec) or (name == "GradDrop" and "leak" in spec):
+        # these accept a configured vector of the other floating dtype; the result must still have the matrix dtype
+        spec["vec_other_dtype"] = draw(st.sampled_from([True, False, False]))
     if name == "Krum":
         spec["f"] = draw(st.integers(0, max(0, m - 3)))
         spec["k"] = draw(st.integers(1, m))
@@ -137,6 +140,14 @@ def _case(draw):
     if full_rank:
         n = max(n, m)
     J, fam = _matrix(draw, m, n, dtype, rng, full_rank=full_rank)
+    if name == "Krum" and scenario == "homog" and draw(st.sampled_from([True, False])):
+        # many rows sharing a large common component: distances are small differences of large numbers
+        m = draw(st.integers(26, 40))
+        n = draw(st.sampled_from([8, 16, 40]))
+        spec["f"] = draw(st.integers(0, 5))
+        spec["k"] = draw(st.integers(1, 3))
+        J = rng.standard_normal((m, n)) * rng.uniform(0.3, 3.0, size=(m, 1)) + 10.0 ** draw(st.sampled_from([3, 4])) * np.sign(rng.standard_normal(n))
+        fam = "common-offset"
     case["family"] = fam + (":full" if full_rank else "")
     case["J"] = (J * 10.0**e).tolist()
     if scenario == "history":
@@ -158,7 +169,7 @@ def _case(draw):
         case["history"] = hist
     if scenario == "homog":
         k = draw(st.integers(-20, 20)) if dtype == "float32" else draw(st.integers(-60, 60))
-        generic = draw(st.booleans()) and name not in DISCONTINUOUS and (name not in RANK_BASED or full_rank)
+        generic = draw(st.booleans()) and (name not in DISCONTINUOUS or name == "Krum") and (name not in RANK_BASED or full_rank)
         mu = draw(st.floats(1.0, 2.0)) if generic else 1.0
         case["t"] = float(2.0**k * mu)
         case["generic_t"] = bool(generic)
@@ -345,6 +356,12 @@ def run_case(case) -> Outcome:
         amp = float(m)
         if name == "Constant":
             amp *= max(1.0, float(np.abs(np.array(spec["weights"])).max()))
+        if name == "Krum" and case["generic_t"]:
+            from vlib import relations as rel
+
+            if rel.domain_exclusion(spec, dtype, J) is not None:
+                out.excluded = "krum-score-tie"
+                return out
         if name == "CAGrad":
             from vlib import relations as rel
 
